@@ -61,6 +61,10 @@ type caseState struct {
 
 	touchedRounds map[[2]uint64]struct{}
 
+	// rounds whose votes were written to the round store while the round was
+	// beyond the mirror's next-round view (future votes), see noteFutureStored
+	futureStored map[[2]uint64]bool
+
 	storeWrites atomic.Int64
 	crashAt     int64 // freeze the writer of write number crashAt (1-based); 0 = never
 	crashed     chan struct{}
@@ -70,6 +74,24 @@ type caseState struct {
 	sigOK   map[[32]byte]bool
 	ended   string // reason the case ended early
 	counter map[string]int64
+}
+
+// noteFutureStored records a vote write for a round that is neither the voting
+// nor the next round at the position last persisted: a future vote, which only
+// the round store holds.
+func (cs *caseState) noteFutureStored(h uint64, r uint32) {
+	cs.mu.Lock()
+	defer cs.mu.Unlock()
+	if !cs.haveNHR {
+		return
+	}
+	vh, vr := cs.lastNHR[0], cs.lastNHR[1]
+	if h > vh || (h == vh && uint64(r) > vr+1) {
+		if cs.futureStored == nil {
+			cs.futureStored = map[[2]uint64]bool{}
+		}
+		cs.futureStored[[2]uint64{h, uint64(r)}] = true
+	}
 }
 
 type commitEvent struct {
@@ -280,6 +302,7 @@ func (s *roundStoreW) OverwriteRoundPrevoteProofs(ctx context.Context, h uint64,
 		return err
 	}
 	s.touch(h, r)
+	s.cs.noteFutureStored(h, r)
 	return s.in.OverwriteRoundPrevoteProofs(ctx, h, r, p)
 }
 
@@ -288,6 +311,7 @@ func (s *roundStoreW) OverwriteRoundPrecommitProofs(ctx context.Context, h uint6
 		return err
 	}
 	s.touch(h, r)
+	s.cs.noteFutureStored(h, r)
 	return s.in.OverwriteRoundPrecommitProofs(ctx, h, r, p)
 }
 
